@@ -79,6 +79,10 @@ CLAIMS = {
          "Shape clauses only: in write_response the body is written after the header, the fullness test is position+2 > len, the trailer literal, the Content-Length value itoa(body+2) and the sent slice ..header+body+2 use the same constant, digit cells are blanked before being rewritten at the same offset and 10^8 exceeds the buffer; announces and every scrape part are sent to calculate_request_consumer_index(config, hash) = hash[0] % swarm_workers with pending count = number of groups; the scrape list is cut with take(max_scrape_torrents) BEFORE partitioning (a rule that exposed a genuine defect, fix: 9d81575); the connection loop is (read, handle, write)* with write_response(handle_request(read_request().0, ..)) and cannot loop again when keep-alive is off; SO_REUSEPORT before bind.",
          "Not decided: everything about a running tracker - TCP segmentation, scheduling, ordering across connections, isolation of malformed requests.",
          "DESIGN.md section 2, C16"),
+ "C17": ("closed-world analysis of every routing-pair construction, CFG must-pass-through for the clean-up, path analysis of the record-before-send and pending-scrape typestate rules",
+         "Shape clauses: all OutMessageMeta constructions take (consumer id, connection key) from one source object or one zipped receiver tuple; InMessageMeta only from the connection's own ids, which come from the socket worker's index and its slot-map insert; the swarm worker sends (meta, msg) to meta's own consumer id and the socket worker looks meta.connection_id up in its own map; no return of ConnectionRunner::run bypasses after_close, which groups records by the same routing function as the announces and carries the closing connection's identity; forwarding only after recording (Vacant insert or equal stored id), a different stored id is refused, stopped forgets; a pending scrape is registered only under a non-empty worker map (idiom 3) - the rule that exposed the empty-array defect, fix: bdcd121 - and the merged reply is sent exactly when the counter reaches zero.",
+         "Not decided: delivery, back-pressure, close-frame vs reset timing.",
+         "DESIGN.md section 2, C17"),
 }
 
 PENDING_REASON = "check under construction in this build phase (static rules designed in DESIGN.md section 2); not claimed until its rule set is validated both ways"
